@@ -316,6 +316,8 @@ def frame_init(F, S):
 
 def check(F, run, tier):
     S = Summaries(F)
+    from ..rules_archive import discarded_exception_obligations
+    discarded_exception_obligations(F, S, run)
     # refusals at the edge of an integer type's range are exact (neither the largest representable value is turned away nor
     # the first unrepresentable one let through), wherever in the library they are made
     from ..rules_stream import capacity_refusals_exact
@@ -357,4 +359,6 @@ def check(F, run, tier):
         k += len(o) * max(1, sites_ if not f_.cls else 1)
     run.floor("R-NARROW", k, 7)
     run.add(frame_init(F, S))
+    from .c18 import static_locals
+    run.add([o for o in static_locals(F)[0] if "/Sprite/" in o.site or "Art" in o.instance or o.status == "violated"])
     run.add(run_witnesses(F, "C10", WITNESSES))
